@@ -173,6 +173,10 @@ func (w *fingerprintWriter) writeVariableDefs(defs []*ast.VariableDefinition) {
 		w.writeString(d.Variable.Name.Value)
 		w.writeByte(':')
 		w.writeType(d.Type)
+		if d.DefaultValue != nil {
+			w.writeByte('=')
+			w.writeValue(d.DefaultValue)
+		}
 		w.writeByte(',')
 	}
 	w.writeByte(')')
